@@ -89,8 +89,10 @@ impl<T> DualLinkedList<T> {
         self.len += 1;
         let node_ptr: *mut EventNode<T> = &mut *node;
 
-        // From back insert
-        let mut cur: *mut EventNode<T> = &mut *self.tail;
+        // From back insert, starting at the last real node (or head):
+        // nothing may ever be linked behind the tail sentinel, not even an
+        // event at Duration::MAX (the sentinel's own timestamp).
+        let mut cur: *mut EventNode<T> = self.tail.prev;
         loop {
             // SAFTEY:
             // There a two cases
